@@ -53,6 +53,9 @@ def scorers(p):
          lambda X, r: direct.local_direct("gvar", X, *r)),
         ("LocalAnomalyScore(GaussianCovCost())", LocalAnomalyScore(GaussianCovCost()), ("Local", p + 1),
          lambda X, r: direct.local_direct("gcov", X, *r)),
+        ("LocalAnomalyScore(GaussianVarCost((0,1)))", LocalAnomalyScore(GaussianVarCost((0.0, 1.0))), ("Local", 2),
+         lambda X, r: (direct.cost_direct("gvar", (0.0, 1.0), X, r[0], r[3]) - direct.cost_direct("gvar", (0.0, 1.0), X, r[1], r[2])
+                       - direct.cost_direct("gvar", (0.0, 1.0), np.concatenate((np.asarray(X)[r[0]:r[1]], np.asarray(X)[r[2]:r[3]])), 0, (r[1] - r[0]) + (r[3] - r[2])))),
     ]
     return out
 
@@ -155,6 +158,10 @@ def run(ctx):
                     ("bool", np.array([good]) > 0, "NonInt"),
                     ("object", np.array([good], dtype=object), "NonInt"),
                     ("emptylist", [], "NonInt"),
+                    ("list-of-floats", [[float(v) + 0.5 for v in good]], "NonInt"),
+                    ("list-of-integral-floats", [[float(v) for v in good]], "NonInt"),
+                    ("tuple-of-floats", tuple([tuple(float(v) + 0.25 for v in good)]), "NonInt"),
+                    ("frame-of-floats", __import__("pandas").DataFrame([[float(v) + 0.5 for v in good]]), "NonInt"),
                     ("3d", np.array([[good]]), "Dim3"),
                     ("1d", np.array(good), f"(IntRows {k}%nat {coq_list([zlist(good)])})"),
                     ("list2d", [list(good), list(good)], f"(IntRows {k}%nat {coq_list([zlist(good), zlist(good)])})"),
